@@ -552,6 +552,12 @@ def project_sampler(sc, run):
             e["prefixok"] = all(is_prefix(t or [], full_rec[i]) for i, t in enumerate(tr))
         if k == "ch_result":
             e.pop("msg", None)
+            # a chain may end with an error only if something unrecoverable was injected into it (failing model
+            # construction / init_position, failing storage, an unrecoverable density error); recoverable density faults
+            # and retried initialisation attempts are no cause
+            causes = set(sc.get("init_fail", [])) | set(sc.get("math_fail", [])) | {x[0] for x in sc.get("storage_faults", [])} \
+                | {x[0] for x in sc.get("faults", []) if x[2] == "FatalErr"}
+            e["spurious"] = (e.get("ok") is False) and (e.get("i") not in causes)
         if k == "u_ret":
             e.pop("msg", None)
         if k == "final":
